@@ -10,7 +10,7 @@ use anytls_rs::client::SessionPoolConfig;
 use proptest::prelude::*;
 use serde::{Deserialize, Serialize};
 use std::net::{IpAddr, SocketAddr};
-use std::sync::Arc;
+use std::sync::{Arc, Mutex};
 use std::sync::atomic::{AtomicUsize, Ordering};
 use tokio::io::{AsyncReadExt, AsyncWriteExt};
 use tokio::net::{TcpListener, TcpStream};
@@ -20,7 +20,7 @@ pub fn property() -> Property {
     Property {
         id: "C13",
         level: "exploration",
-        rule: "Lab-S family `reuse`: histories of requests through the SOCKS5 front-end (the only layer that knows when a request is over): Seq (one request: connect, echo, close from the application side, settle) and Burst(b) (b simultaneous requests, all completed before the next step), 2-40 requests, pool settings varied (min idle 0-3); the real client dials a counting TCP forwarder in front of the real server, which reports how many TLS connections were opened and how many are still open. Oracles: r_n - a request that overlaps no other is served without a new connection whenever an established healthy session exists (n = 2 and n >= 3 are reported under separate signatures); bound - connections still open <= peak simultaneous requests + min idle after every step. Non-trivial = >= 3 sequential requests, or a burst followed by sequential requests. Distinct = distinct serialized case.",
+        rule: "Lab-S family `reuse`: histories of requests through the SOCKS5 front-end (the only layer that knows when a request is over): Seq (one request: connect, echo, close from the application side, settle) and Burst(b) (b simultaneous requests, all completed before the next step), 2-40 requests, pool settings varied (min idle 0-3); the real client dials a counting TCP forwarder in front of the real server, which reports how many TLS connections were opened and how many are still open. Oracles: r_n - a request that overlaps no other is served without a new connection whenever an established healthy session exists (n = 2 and n >= 3 are reported under separate signatures); bound - connections still open <= peak simultaneous requests + min idle after every step. Non-trivial = >= 3 sequential requests, or a burst followed by sequential requests. Distinct = distinct serialized case. Histories also contain requests to a closed port (the request fails, the session it used stays healthy and pooled sessions must still be reused) and cuts of every established connection by the forwarder (the next request must be served over a new connection, closed sessions are never handed out).",
         assumptions: vec![
             "the forwarder's accept count equals the number of TLS sessions dialled; a connection counts as open until either side closed it",
             "no timers involved: histories are shorter than the 30 s check interval",
@@ -39,6 +39,8 @@ pub enum Step {
     Refused,
     /// the network cuts every established session; the client gets half a second to notice
     KillAll,
+    /// the network cuts one established session (the k-th newest); the others stay healthy
+    KillOne(u8),
 }
 
 #[derive(Clone, Debug, Serialize, Deserialize)]
@@ -59,6 +61,22 @@ pub struct Forwarder {
     pub live: Arc<AtomicUsize>,
     /// bumping this generation cuts every connection that is open at that moment
     pub kill: tokio::sync::watch::Sender<u64>,
+    /// one switch per accepted connection, in accept order: (cut it, still open?)
+    pub conns: Arc<Mutex<Vec<(Arc<tokio::sync::Notify>, Arc<std::sync::atomic::AtomicBool>)>>>,
+}
+
+impl Forwarder {
+    /// Cut the k-th newest connection that is still open; false if there is none.
+    pub fn kill_one(&self, k: usize) -> bool {
+        let g = self.conns.lock().unwrap();
+        let live: Vec<_> = g.iter().filter(|(_, a)| a.load(Ordering::SeqCst)).collect();
+        if live.is_empty() {
+            return false;
+        }
+        let (n, _) = live[live.len() - 1 - (k % live.len())];
+        n.notify_one();
+        true
+    }
 }
 
 pub async fn start_forwarder(upstream: SocketAddr) -> Result<Forwarder, Fail> {
@@ -68,11 +86,16 @@ pub async fn start_forwarder(upstream: SocketAddr) -> Result<Forwarder, Fail> {
     let live = Arc::new(AtomicUsize::new(0));
     let (a2, l2) = (accepted.clone(), live.clone());
     let (kill, kill_rx) = tokio::sync::watch::channel(0u64);
+    let conns: Arc<Mutex<Vec<(Arc<tokio::sync::Notify>, Arc<std::sync::atomic::AtomicBool>)>>> = Default::default();
+    let conns2 = conns.clone();
     tokio::spawn(async move {
         loop {
             let Ok((mut c, _)) = l.accept().await else { break };
             let mut killed = kill_rx.clone();
             killed.borrow_and_update();
+            let cut = Arc::new(tokio::sync::Notify::new());
+            let alive = Arc::new(std::sync::atomic::AtomicBool::new(true));
+            conns2.lock().unwrap().push((cut.clone(), alive.clone()));
             let _ = c.set_nodelay(true);
             a2.fetch_add(1, Ordering::SeqCst);
             l2.fetch_add(1, Ordering::SeqCst);
@@ -109,13 +132,14 @@ pub async fn start_forwarder(upstream: SocketAddr) -> Result<Forwarder, Fail> {
                         }
                     };
                     // the connection is over as soon as either side closed
-                    tokio::select! { _ = a => {}, _ = b => {}, _ = killed.changed() => {} }
+                    tokio::select! { _ = a => {}, _ = b => {}, _ = killed.changed() => {}, _ = cut.notified() => {} }
                 }
+                alive.store(false, Ordering::SeqCst);
                 l3.fetch_sub(1, Ordering::SeqCst);
             });
         }
     });
-    Ok(Forwarder { addr, accepted, live, kill })
+    Ok(Forwarder { addr, accepted, live, kill, conns })
 }
 
 pub async fn one_request(socks: SocketAddr, target: SocketAddr, tag: usize) -> Result<(), Fail> {
@@ -141,7 +165,7 @@ impl Family for ReuseFam {
         "reuse"
     }
     fn strategy(&self, _tier: Tier) -> BoxedStrategy<ReuseCase> {
-        let step = prop_oneof![8 => Just(Step::Seq), 2 => (2u8..6).prop_map(Step::Burst), 2 => (8u8..20).prop_map(Step::Burst), 1 => Just(Step::Refused), 1 => Just(Step::KillAll)];
+        let step = prop_oneof![8 => Just(Step::Seq), 2 => (2u8..6).prop_map(Step::Burst), 2 => (8u8..20).prop_map(Step::Burst), 1 => Just(Step::Refused), 1 => Just(Step::KillAll), 2 => (0u8..3).prop_map(Step::KillOne)];
         let step_t = prop_oneof![8 => Just(Step::Seq), 2 => (2u8..4).prop_map(Step::Burst), 4 => prop_oneof![Just(5u8), Just(25), Just(35)].prop_map(Step::Pause), 1 => Just(Step::Refused)];
         prop_oneof![
             2 => (0usize..=3, proptest::collection::vec(step, 2..14)).prop_map(|(min_idle, steps)| ReuseCase { min_idle, steps, short_timers: false }),
@@ -160,6 +184,10 @@ impl Family for ReuseFam {
             // sessions cut by the network are not handed out again; the request after the cut is served
             ReuseCase { min_idle: 1, steps: vec![Step::Seq, Step::KillAll, Step::Seq, Step::Seq], short_timers: false },
             ReuseCase { min_idle: 2, steps: vec![Step::Burst(4), Step::KillAll, Step::Seq, Step::Burst(3), Step::KillAll, Step::Seq], short_timers: false },
+            // one of several pooled sessions is cut (the newest / an older one): the others are still reused
+            ReuseCase { min_idle: 3, steps: vec![Step::Burst(3), Step::KillOne(0), Step::Seq], short_timers: false },
+            ReuseCase { min_idle: 3, steps: vec![Step::Burst(3), Step::KillOne(1), Step::Seq], short_timers: false },
+            ReuseCase { min_idle: 3, steps: vec![Step::Burst(4), Step::KillOne(0), Step::KillOne(0), Step::Seq, Step::Seq], short_timers: false },
             // a quiet period longer than the idle timeout: the reaper keeps min idle sessions for reuse
             ReuseCase { min_idle: 1, steps: vec![Step::Seq, Step::Pause(35), Step::Seq], short_timers: true },
             ReuseCase { min_idle: 2, steps: vec![Step::Burst(3), Step::Pause(35), Step::Seq, Step::Seq], short_timers: true },
@@ -252,6 +280,23 @@ impl Family for ReuseFam {
                             dead_in_pool = true;
                             continue;
                         }
+                        Step::KillOne(k) => {
+                            let live_before = fwd.live.load(Ordering::SeqCst);
+                            if !fwd.kill_one(*k as usize) {
+                                continue;
+                            }
+                            let gone = wait_until(5_000, || fwd.live.load(Ordering::SeqCst) < live_before).await;
+                            if !gone {
+                                return Err(infra("the forwarder did not cut the connection"));
+                            }
+                            tokio::time::sleep(Duration::from_millis(500)).await;
+                            // the cut session may or may not have been a pooled one: at least pooled - 1
+                            // healthy sessions are still pooled, and one of them must serve the next
+                            // request (a closed session in the pool is skipped, not a reason to dial)
+                            pooled = (pooled - 1).max(0);
+                            dead_in_pool = true;
+                            continue;
+                        }
                         Step::Pause(ds) => {
                             tokio::time::sleep(Duration::from_millis(*ds as u64 * 100)).await;
                             if case.short_timers && *ds >= 20 {
@@ -325,6 +370,7 @@ impl Family for ReuseFam {
         out.class_if(burst_then_seq, "burst-then-sequential");
         out.class_if(case.min_idle == 0, "min_idle=0");
         out.class_if(case.steps.windows(2).any(|w| matches!(w[0], Step::KillAll) && matches!(w[1], Step::Seq | Step::Burst(_))), "request-after-all-sessions-cut");
+        out.class_if(case.steps.windows(2).any(|w| matches!(w[0], Step::KillOne(_)) && matches!(w[1], Step::Seq)), "request-after-one-session-cut");
         out.class_if(case.steps.windows(2).any(|w| matches!(w[0], Step::Refused) && matches!(w[1], Step::Seq)), "refused-then-sequential");
         out.class_if(case.steps.iter().any(|s| matches!(s, Step::Pause(d) if *d >= 20)) && case.short_timers, "quiet-period>idle-timeout");
         Ok(out)
